@@ -1068,6 +1068,8 @@ OBSOP = {"AND": "OpAnd", "OR": "OpOr", "FOLLOWEDBY": "OpFb"}
 
 def a_qual(s):
     k = s["k"]
+    if "c" in s:          # the number as a constant specification (int / float / raw)
+        return "(%s %s)" % ("AQRepeat" if k == "repeat" else "AQWithin", a_const(s["c"]))
     if k == "repeat":
         return "(AQRepeat (CInt (%d)%%Z))" % s["n"]
     if k == "within":
@@ -1141,8 +1143,11 @@ class ProgGen:
         us = rng.choice([0, 0, 1, 500000, 123456, 120000, 999999, 100])
         return {"k": "ts", "v": [y, mo, d, rng.randrange(24), rng.randrange(60), rng.randrange(60), us]}
 
+    NAMES = ["a", "b", "name", "hashes", "SHA-256", "x-y", "value", "src_ref", "_z", "A1", "windows-pebinary-ext",
+             "a__b", "x--y", "x_y_z", "\u00e9", "a b"] + KEYWORDS_21 + [k.swapcase() for k in ONLY_21]
+
     def name(self):
-        return self.rng.choice(["a", "b", "name", "hashes", "SHA-256", "x-y", "value", "src_ref", "_z", "A1", "windows-pebinary-ext"])
+        return self.rng.choice(self.NAMES)
 
     def text_comp(self):
         """a path step written as text; `name`/`idx` say what it is meant to be"""
@@ -1216,7 +1221,13 @@ class ProgGen:
         k = rng.choice(["repeat", "within", "startstop"])
         if k == "startstop":
             return {"k": k, "a": self.const(["ts"]), "b": self.const(["ts"])}
-        return {"k": k, "n": rng.choice([0, 1, 5, 300, 2 ** 40])}
+        if k == "within" and rng.random() < 0.4:      # WITHIN takes a float too: constant, or plain value
+            v = rng.choice(["0.5", "5.5", "1.0", "0.25", "300.0", "2.125", "0.001", "10.75"])
+            return {"k": k, "c": {"k": "float", "v": v} if rng.random() < 0.5 else {"k": "raw", "v": float(v)}}
+        n = rng.choice([0, 1, 5, 300, 2 ** 40, 9, 10, 255, 256, 2 ** 53 + 1, 10 ** 21])
+        if rng.random() < 0.3:
+            return {"k": k, "n": n, "raw": True}
+        return {"k": k, "n": n}
 
     # observation level: 0 = single observation, 1 = AND, 2 = OR, 3 = FOLLOWEDBY
     def oexpr(self, d, wg):
@@ -1323,6 +1334,45 @@ def prog_systematic():
         e = {"k": "cmp", "cls": "Equality", "lhs": {"type": "file", "comps": comps}, "rhs": {"k": "int", "v": 1}, "neg": False}
         out.append({"k": "obs", "e": e})
         out.append({"k": "obs", "e": dict(e, lhs_text="file:sections[%s].name" % idx)})
+    # sizes on both sides of plausible bounds: list constants, operands, path components, chains
+    for n in SIZES:
+        ints = [{"k": "int", "v": i} for i in range(n)]
+        out.append({"k": "obs", "e": {"k": "cmp", "cls": "In", "lhs": pa, "rhs": {"k": "list", "v": ints}, "neg": False}})
+        out.append({"k": "obs", "e": eqr(pc, list(range(n)))})
+        if n >= 1:
+            comps = [{"k": "list", "n": "k-%d" % i, "i": i} if i % 3 == 2 else {"k": "basic", "n": ("k-%d" if i % 3 else "k%d") % i}
+                     for i in range(n)]
+            out.append({"k": "obs", "e": {"k": "cmp", "cls": "Equality", "lhs": {"type": "a", "comps": comps}, "rhs": {"k": "int", "v": 1}, "neg": False}})
+        if 2 <= n <= 101:
+            cmps = [{"k": "cmp", "cls": "Equality", "lhs": pa, "rhs": {"k": "int", "v": i}, "neg": False} for i in range(n)]
+            out.append({"k": "obs", "e": AND(*cmps)})
+            out.append({"k": "obs", "e": OR(*cmps)})
+            for op in ("AND", "OR", "FOLLOWEDBY"):
+                out.append(cp(op, *[{"k": "obs", "e": x} for x in cmps]))
+        if n in (0, 1, 255, 256):
+            out.append({"k": "obs", "e": {"k": "cmp", "cls": "Equality", "lhs": pa, "rhs": {"k": "str", "v": "'\\" * n}, "neg": False}})
+            out.append({"k": "obs", "e": eqr(pc, "x" * n)})
+            if n:
+                out.append({"k": "obs", "e": {"k": "cmp", "cls": "Equality", "lhs": {"type": "t" * n, "comps": [{"k": "basic", "n": "k-" * n}]},
+                                              "rhs": {"k": "int", "v": int("9" * n)}, "neg": False}})
+    # every keyword of either grammar version as a name: component (quoted by the printer), list component, text step
+    for kw in KEYWORDS_21 + [k.swapcase() for k in ONLY_21]:
+        comps = [{"k": "basic", "n": kw}, {"k": "list", "n": kw, "i": "*"}, {"k": "text", "n": kw, "name": kw, "idx": None},
+                 {"k": "text", "n": "%s[1]" % kw, "name": kw, "idx": 1}]
+        out.append({"k": "obs", "e": {"k": "cmp", "cls": "Equality", "lhs": {"type": "a", "comps": comps}, "rhs": {"k": "str", "v": kw}, "neg": False}})
+    # numbers: zero and minus zero, integer-valued floats, beyond 2^53 and 10^21, floats sharing their integer part;
+    # WITHIN with fractional seconds (constant and plain value), REPEATS / WITHIN from plain ints
+    for v in (0, -0.0, 0.0, 7.0, 2 ** 53 + 1, 10 ** 21, -(10 ** 21), 10 ** 400, 1.5, 1.25, 1e21, 1e-7, 123456789012345.0):
+        out.append({"k": "obs", "e": eqr(pc, v)})
+        out.append({"k": "obs", "e": {"k": "cmp", "cls": "GreaterThan", "lhs": pc, "rhs": raw(v), "neg": False}})
+    out.append({"k": "obs", "e": eqr(pc, [1.5, 1.25, 1, 1.0, True])})
+    for qs in ({"k": "within", "c": {"k": "float", "v": "5.5"}}, {"k": "within", "c": {"k": "raw", "v": 5.5}},
+               {"k": "within", "c": {"k": "raw", "v": 0.25}}, {"k": "within", "c": {"k": "float", "v": "1.0"}},
+               {"k": "within", "c": {"k": "raw", "v": 7.0}}, {"k": "within", "n": 5, "raw": True}, {"k": "repeat", "n": 3, "raw": True},
+               {"k": "within", "c": {"k": "raw", "v": 1e-05}}, {"k": "within", "c": {"k": "raw", "v": 1e16}},
+               {"k": "repeat", "c": {"k": "int", "v": 10 ** 21}}):
+        out.append(Q(A, qs))
+        out.append(Q(par(cp("OR", A, B)), qs))
     for n in ("src_ref", "SHA-256", "hashes"):
         comps = [{"k": "text", "n": "a", "name": "a", "idx": None}, {"k": "text", "n": n, "name": n, "idx": None}]
         e = {"k": "cmp", "cls": "Equality", "lhs": {"type": "x", "comps": comps}, "rhs": {"k": "int", "v": 1}, "neg": False}
@@ -1494,7 +1544,9 @@ def pm_tree(s):
     if k == "paren":
         return ("wrap", "Par", pm_tree(s["e"]))
     qs = s["q"]
-    if qs["k"] == "repeat":
+    if "c" in qs:
+        qt = "%s(%s)" % ("Rep" if qs["k"] == "repeat" else "Win", pm_const(qs["c"]))
+    elif qs["k"] == "repeat":
         qt = "Rep(I(%d))" % qs["n"]
     elif qs["k"] == "within":
         qt = "Win(I(%d))" % qs["n"]
